@@ -143,6 +143,7 @@ pub fn finish(id: &str, out: &Outcome) -> i32 {
 
 pub fn run_generic(id: &str, tier: Tier) -> i32 {
     match id {
+        "C03" => return run_c03(tier, None),
         "C16" => return run_c16(tier),
         "C17" => return run_c17(tier),
         "C18" => return run_c18(tier),
@@ -283,6 +284,26 @@ pub fn replay(path: &str) -> i32 {
             };
         }
         _ => {}
+    }
+    if v.get("kind").and_then(|k| k.as_str()) == Some("c03-case") || v.get("property").and_then(|k| k.as_str()) == Some("C03") || v.get("known_id").is_some() {
+        let desc = match ser::case_from_json(&v) {
+            Some(d) => d,
+            None => {
+                eprintln!("no case in {}", path);
+                return 2;
+            }
+        };
+        let case = desc.expand(false).expect("raw case");
+        let fails = crate::props::robust::strict_pair(&case.a, &case.b, &crate::exec::OPS);
+        if fails.is_empty() {
+            println!("replay {}: all four operations return on this input [{} build]", path, crate::props::robust::build_name());
+            return 0;
+        }
+        println!("VIOLATION property=C03 replay={}", path);
+        for (op, p, sig) in fails {
+            println!("  {} panicked at {}:{}: {} (events {}, signature {:?}) [{} build]", crate::exec::op_name(op), p.file, p.line, p.message, p.events, sig, crate::props::robust::build_name());
+        }
+        return 1;
     }
     let ids: Vec<String> = match (v.get("property").and_then(|p| p.as_str()), v.get("properties").and_then(|p| p.as_array())) {
         (Some(p), _) => vec![p.to_string()],
@@ -502,16 +523,15 @@ pub fn run_scenarios(id: &str, scenarios: &[crate::props::big::Scenario], parall
     for (i, r, secs) in res {
         let sc = &scenarios[i];
         stats.evaluations += 1;
-        *stats.per_family.entry(match sc { Scenario::Splay { .. } => "splay-scenarios".to_string(), Scenario::Bool { .. } => "boolean-scenarios".to_string() }).or_default() = {
-            let e = stats.per_family.get(match sc { Scenario::Splay { .. } => "splay-scenarios", Scenario::Bool { .. } => "boolean-scenarios" }).cloned().unwrap_or((0, 0));
-            (e.0 + 1, e.1)
-        };
+        let fam_name = match sc { Scenario::Splay { .. } => "splay-scenarios", Scenario::Bool { .. } => "boolean-scenarios" };
+        stats.per_family.entry(fam_name.to_string()).or_default().0 += 1;
         match judge_scenario(sc, &r) {
             Ok(nt) => {
                 if matches!(r, ChildResult::Timeout) {
                     timeouts += 1;
                 }
                 if nt {
+                    stats.per_family.entry(fam_name.to_string()).or_default().1 += 1;
                     use std::hash::{Hash, Hasher};
                     let mut h = std::collections::hash_map::DefaultHasher::new();
                     sc.text().hash(&mut h);
@@ -618,4 +638,191 @@ pub fn run_c16(tier: Tier) -> i32 {
     let out = Outcome { violations, known_lines, stats, extra: json!({}) };
     write_evidence("C16", tier, seed, rule, &["integer family: all intermediate products of the library are exact below 2^25, so the classification clauses are demanded exactly", "float family: only containment in both bounding boxes, common split point, link/flag clauses, and detection with a margin of 1e-9*magnitude (f32: 1e-4) are demanded", "split points that differ with the exact shape of the recorded finding N2 (equal y, x one ulp apart, smaller x = left x of the bumped segment, y below it) are counted under known_signature_hits_N2 and not reported"], &out, t0.elapsed().as_secs_f64(), false);
     finish("C16", &out)
+}
+
+// ---------------------------------------------------------------------------------------------
+// C03
+
+fn c03_known(stats: &mut Stats, violations: &mut Vec<Violation>, known_lines: &mut Vec<String>) {
+    use crate::props::robust::*;
+    let relassert = cfg!(debug_assertions);
+    for (sub, strict) in [("regress", true), ("known", false)] {
+        for (path, v) in pinned_files(sub, "C03") {
+            if v.get("kind").and_then(|k| k.as_str()) == Some("child-scenario") {
+                continue;
+            }
+            let desc = match ser::case_from_json(&v) {
+                Some(d) => d,
+                None => continue,
+            };
+            let case = match desc.expand(false) {
+                Ok(c) => c,
+                Err(_) => continue,
+            };
+            stats.evaluations += 1;
+            let fails = strict_pair(&case.a, &case.b, &crate::exec::OPS);
+            let id = v.get("known_id").and_then(|k| k.as_str()).unwrap_or("?").to_string();
+            let mut reported = false;
+            for (op, p, sig) in fails {
+                let name = format!("{:?}", sig);
+                let accepted = !strict && if relassert { sig != Signature::Other } else { name == id };
+                if accepted {
+                    if !reported {
+                        known_lines.push(format!("{} {} panics at {}:{} ({}) [{} build] on the recorded input {}", id, crate::exec::op_name(op), p.file.rsplit('/').next().unwrap_or(""), p.line, if p.budget_exceeded { "sweep event budget exceeded, unbounded one-ulp walk".to_string() } else { p.message.chars().take(60).collect::<String>() }, build_name(), path));
+                        reported = true;
+                    }
+                } else {
+                    violations.push(Violation { replay: path.clone(), clause: if p.budget_exceeded { "event-bound-exceeded".into() } else { "panic".into() }, detail: format!("{} panicked at {}:{}: {} (signature {:?}, recorded finding {})", crate::exec::op_name(op), p.file, p.line, p.message, sig, id) });
+                }
+            }
+        }
+    }
+}
+
+pub fn c03_big_scenarios(tier: Tier) -> Vec<crate::props::big::Scenario> {
+    use crate::props::big::Scenario;
+    let mut v = Vec::new();
+    let n = tier.pick(50_000, 250_000);
+    for shape in 0..3 {
+        for corner in 0..4 {
+            for op in 0..4 {
+                if tier == Tier::Quick && (op + corner + shape) % 2 == 1 {
+                    continue;
+                }
+                v.push(Scenario::Bool { shape, n, corner, op, stack_mib: 8 });
+            }
+        }
+    }
+    for size in [1_000u64, 10_000] {
+        v.push(Scenario::Bool { shape: 0, n: size, corner: 0, op: 0, stack_mib: 8 });
+    }
+    v
+}
+
+/// one build's share of C03: pinned inputs, robust-domain cases, edge cases
+fn c03_common(tier: Tier, seed: u64, stats: &mut Stats, violations: &mut Vec<Violation>, known_lines: &mut Vec<String>) {
+    use crate::props::robust::*;
+    c03_known(stats, violations, known_lines);
+    let mut ev = Vec::new();
+    let (n, nt, samples) = run_edge_cases(&mut ev);
+    stats.evaluations += n;
+    stats.per_family.insert("edge-cases".into(), (n, nt));
+    for i in 0..nt {
+        stats.nontrivial.insert(0xED6E_0000_0000_0000 | i);
+    }
+    stats.samples.extend(samples);
+    for (_, f, case) in ev.into_iter().take(3) {
+        let p = write_replay_value("C03", stats.evaluations, case, &f);
+        violations.push(Violation { replay: p, clause: f.clause, detail: f.detail });
+    }
+    if violations.is_empty() {
+        let families = props::pair_families(tier, 48_000, 2_400_000, true, false);
+        let check: Box<CheckFn> = Box::new(c03_case);
+        run_random("C03", seed, &families, &*check, stats, violations);
+    }
+}
+
+pub fn run_c03(tier: Tier, part_out: Option<&str>) -> i32 {
+    use crate::props::robust::*;
+    let seed = seed_from_env();
+    let t0 = Instant::now();
+    let mut stats = Stats::default();
+    let mut violations = Vec::new();
+    let mut known_lines = Vec::new();
+    c03_common(tier, seed, &mut stats, &mut violations, &mut known_lines);
+    if let Some(out) = part_out {
+        // running as the debug-assertion build's share: report to the parent
+        let v = json!({
+            "build": build_name(),
+            "evaluations": stats.evaluations,
+            "distinct_nontrivial": stats.nontrivial.len(),
+            "per_family": stats.per_family.iter().map(|(k, v)| (k.clone(), json!({"evaluations": v.0, "nontrivial": v.1}))).collect::<serde_json::Map<String, Value>>(),
+            "violations": violations.iter().map(|v| json!({"replay": v.replay, "clause": v.clause, "detail": v.detail})).collect::<Vec<_>>(),
+            "known_lines": known_lines,
+            "rejected_invalid": stats.rejected_invalid,
+        });
+        std::fs::write(out, serde_json::to_string(&v).unwrap()).expect("write part");
+        return if violations.is_empty() { 0 } else { 1 };
+    }
+    let rule = "(a) the robust-domain operand pairs of C01 (all 4 operations, one trait pairing, f64 and, when representable, f32), in a release build and in a build with debug assertions and overflow checks: the call must return and the guarded counter of processed sweep events must stay within B(n) = 4n^2+8n+16 (n = input edges); (b) 13 degenerate-but-valid operands (empty multipolygon, empty exterior, empty hole, ring of one repeated point, single-point ring, repeated consecutive vertices, ...) in all ordered pairs x 4 operations x allowed trait pairings x f64/f32, also judged by the membership oracle; (c) large parametric inputs (combs, grids, nested rings with a clipping box at each corner) in child processes; (d) adversarial inputs (small-lattice simple polygons with arbitrary slopes, x-squashed float stars) where panics with the exact signature of the recorded findings K1/K2 are tolerated and counted. Non-trivial: (a) as C01; (b) sweep path taken; (c) >= 1e5 edges and >= 1e4 segments in the sweep line at the early stop; (d) bounding boxes overlap.";
+    let mut extra = json!({"builds": [build_name()]});
+    // the other build
+    let exe = std::env::current_exe().expect("exe");
+    let other = exe.parent().and_then(|p| p.parent()).map(|p| p.join("relassert").join("verif"));
+    let mut inconclusive = false;
+    match other {
+        Some(o) if o.exists() && !cfg!(debug_assertions) => {
+            let outfile = format!("{}/.c03-part.tmp", verif_root());
+            let _ = std::fs::remove_file(&outfile);
+            let status = std::process::Command::new(&o).args(["part", "C03", tier.name(), &outfile]).status();
+            match (status, std::fs::read_to_string(&outfile).ok().and_then(|s| serde_json::from_str::<Value>(&s).ok())) {
+                (Ok(_), Some(v)) => {
+                    stats.evaluations += v["evaluations"].as_u64().unwrap_or(0);
+                    for x in v["violations"].as_array().cloned().unwrap_or_default() {
+                        violations.push(Violation { replay: x["replay"].as_str().unwrap_or("").to_string(), clause: x["clause"].as_str().unwrap_or("").to_string(), detail: x["detail"].as_str().unwrap_or("").to_string() });
+                    }
+                    for l in v["known_lines"].as_array().cloned().unwrap_or_default() {
+                        if let Some(l) = l.as_str() {
+                            known_lines.push(l.to_string());
+                        }
+                    }
+                    extra["debug_assertion_build"] = v;
+                    extra["builds"] = json!([build_name(), "release+debug-assertions+overflow-checks"]);
+                }
+                _ => {
+                    eprintln!("the debug-assertion build of the harness did not report");
+                    inconclusive = true;
+                }
+            }
+            let _ = std::fs::remove_file(&outfile);
+        }
+        _ => {
+            eprintln!("debug-assertion build of the harness not found (run ./check build)");
+            inconclusive = true;
+        }
+    }
+    // (c) large inputs in child processes
+    let mut timeouts = 0;
+    if violations.is_empty() {
+        let mut scen = Vec::new();
+        for (_, v) in pinned_files("regress", "C03") {
+            if v.get("kind").and_then(|k| k.as_str()) == Some("child-scenario") {
+                if let Some(sc) = v.get("scenario").and_then(|s| s.as_str()).and_then(|s| crate::props::big::Scenario::from_args(&s.split_whitespace().map(|x| x.to_string()).collect::<Vec<_>>())) {
+                    scen.push(sc);
+                }
+            }
+        }
+        scen.extend(c03_big_scenarios(tier));
+        let (t, listing) = run_scenarios("C03", &scen, 6, 600, &mut stats, &mut violations);
+        timeouts = t;
+        // event bound on the large inputs
+        for l in &listing {
+            let (e, n) = (l["report"]["events"].as_i64().unwrap_or(0) as u64, l["report"]["edges"].as_i64().unwrap_or(0) as u64);
+            if e > crate::exec::event_bound(n) {
+                let f = Failure::new("event-bound-exceeded", format!("scenario {}: {} events for {} edges", l["scenario"], e, n));
+                let p = write_replay_value("C03", e, json!({"kind": "child-scenario", "scenario": l["scenario"]}), &f);
+                violations.push(Violation { replay: p, clause: f.clause, detail: f.detail });
+            }
+        }
+        extra["large_input_scenarios"] = json!(listing);
+    }
+    // (d) adversarial inputs, tolerated-signature mode (release build)
+    if violations.is_empty() {
+        let plan = Plan::<Adv> {
+            name: "adversarial",
+            cases: tier.pick(200_000, 4_000_000),
+            strategy: Box::new(adv_strategy),
+            eval: Box::new(|d: &Adv, s: bool| eval_adv(d, s)),
+            replay: Box::new(|d: &Adv, _f: &Failure| adv_replay(d)),
+        };
+        run_plans("C03", seed, &[plan], &mut stats, &mut violations);
+    }
+    let out = Outcome { violations, known_lines, stats, extra };
+    write_evidence("C03", tier, seed, rule, &[props::ASSUME_DOMAIN, "the event counter and budget are the feature-guarded hook in subdivide (thread-local); bounded events imply bounded allocation because every processed event creates at most four new events and nothing else allocates in a loop", "a watchdog expiry of a child process is inconclusive (exit 2), never a violation", "adversarial tier: a panic is tolerated only with the exact recorded signature (K1: index usize::MAX at connect_edges.rs; K2: budget exceeded with the last 16 event x-coordinates within 64 ulps)"], &out, t0.elapsed().as_secs_f64(), false);
+    let code = finish("C03", &out);
+    if code == 0 && (timeouts > 0 || inconclusive) {
+        println!("INCONCLUSIVE: {} watchdog expiries; debug-assertion build missing: {}", timeouts, inconclusive);
+        return 2;
+    }
+    code
 }
